@@ -1044,6 +1044,417 @@ func vBigSize(x uint64) []byte {
 	return b
 }
 
+// ---------------------------------------------------------------- systematic sweeps
+//
+// rec-sweep : for every record of the TLV part of a valid encoding (per message type each
+//             (record type, length) once in the quick tier, on four bases in the thorough tier)
+//             the value is driven over its domain: 1-byte values exhaustively; integers of
+//             2..8 bytes over 0..260, 2^k, 2^k-1, all-ones, 999..1001, x+-1 (fixed width,
+//             and as BigSize when the original value is one); longer values bitwise on
+//             their first and last bytes, all-zero, all-ones; the record removed; emptied.
+// fix-sweep : every byte of the fixed part (first 400): all single-bit flips, 0, 0xff, +-1
+//             (thorough: all 256 values on the first base, the short set on three more).
+// val-sweep : value -> bytes: every settable unsigned-integer field of a generated message
+//             value (also inside tlv.RecordT) over the FULL domain of its Go type (uint8: all
+//             256 values; wider: the integer set above), not only the defined constants.
+// Every case runs b -> m1 -> b2 -> m2 -> b3 and requires m1 == m2 (deep value equality,
+// TLV record maps and optional records included) and b2 == b3.  Only the failing cases and a
+// 1-in-150 sample (for the model comparison) are emitted; the counts go into a `sweep` row.
+
+type vRec struct {
+	t      uint64
+	off    int // offset of the record in b
+	hdr, n int // header bytes, value bytes
+}
+
+// strict parse of b[start:] as a TLV stream; nil when it is not one
+func vTlvRecords(b []byte, start int) []vRec {
+	var out []vRec
+	i := start
+	rd := func() (uint64, bool) {
+		if i >= len(b) {
+			return 0, false
+		}
+		d := b[i]
+		w := map[byte]int{0xfd: 2, 0xfe: 4, 0xff: 8}[d]
+		if w == 0 {
+			i++
+			return uint64(d), true
+		}
+		if i+1+w > len(b) {
+			return 0, false
+		}
+		var v uint64
+		for _, x := range b[i+1 : i+1+w] {
+			v = v<<8 | uint64(x)
+		}
+		i += 1 + w
+		return v, true
+	}
+	for i < len(b) {
+		off := i
+		t, ok := rd()
+		if !ok {
+			return nil
+		}
+		l, ok := rd()
+		if !ok || l > uint64(len(b)-i) {
+			return nil
+		}
+		out = append(out, vRec{t, off, i - off, int(l)})
+		i += int(l)
+	}
+	return out
+}
+
+// vTlvStart: offset where records may follow a valid encoding's fixed part (also for the
+// pure-TLV messages, which have no ExtraOpaqueData field): the shortest decodable prefix
+// after which an unknown odd record is accepted.
+func vTlvStart(b []byte) int {
+	for k := 2; k <= len(b); k++ {
+		if _, err, pan, _ := vRead(b[:k]); err == nil && pan == "" {
+			probe := append(append([]byte{}, b[:k]...), vUnknownRec...)
+			if _, err, pan, _ := vRead(probe); err == nil && pan == "" {
+				return k
+			}
+		}
+	}
+	return -1
+}
+
+var vSweepInts = func() []uint64 {
+	seen := map[uint64]bool{}
+	var out []uint64
+	add := func(x uint64) {
+		if !seen[x] {
+			seen[x] = true
+			out = append(out, x)
+		}
+	}
+	small := uint64(100) // covers the defaults lnd elides (1, 80) and their neighbours
+	if vTier() == "thorough" {
+		small = 260
+	}
+	for x := uint64(0); x <= small; x++ {
+		add(x)
+	}
+	add(255)
+	add(256)
+	add(257)
+	for k := uint(0); k < 64; k++ {
+		add(1 << k)
+		add(1<<k - 1)
+		add(1<<k + 1)
+	}
+	for _, x := range []uint64{999, 1000, 1001, 9999, 10000, 1<<64 - 1, 1<<64 - 2} {
+		add(x)
+	}
+	return out
+}()
+
+type vSweepStat struct{ cases, accepted, bad, badVal, emitted int }
+
+// take the value dump only when the re-encoding differs from the input
+const vFixLazy = true
+
+// vFix runs the fixpoint pipeline without building a row; bad = a predicate would fail.
+func vFix(b []byte) (accepted, bad bool) {
+	m, err, pan, _ := vRead(b)
+	if pan != "" {
+		return false, true
+	}
+	if err != nil {
+		return false, false
+	}
+	d1 := ""
+	if !vFixLazy {
+		d1 = vDump(m)
+	}
+	b1, err, pan := vWrite(m)
+	if pan != "" || err != nil || len(b1) > 65535 {
+		return true, true
+	}
+	if bytes.Equal(b1, b) {
+		// the input is its own re-encoding: the second generation repeats the first
+		// (decoder and encoder are functions of their input), nothing more to compare
+		return true, false
+	}
+	if vFixLazy {
+		// the dump must be taken before Encode (which may rewrite ExtraData): decode again;
+		// m itself stays the encoded-from value (same allowance as vCheckBytes: d1b)
+		mf, _, _, _ := vRead(b)
+		d1 = vDump(mf)
+	}
+	m2, err, pan, _ := vRead(b1)
+	if pan != "" || err != nil {
+		return true, true
+	}
+	d2 := vDump(m2)
+	if d1 != d2 && vDump(m) != d2 {
+		return true, true
+	}
+	b2, err, _ := vWrite(m2)
+	return true, err != nil || !bytes.Equal(b1, b2)
+}
+
+func vSweepCase(out *vWriter, mt MessageType, b []byte, mut string, st *vSweepStat) {
+	if len(b) > 65535 {
+		return
+	}
+	st.cases++
+	acc, bad := vFix(b)
+	if acc {
+		st.accepted++
+	}
+	if bad {
+		st.bad++
+		if st.bad-st.badVal > 40 {
+			return // enough evidence; the count is still reported
+		}
+	}
+	if bad || (acc && st.accepted%150 == 1) {
+		st.emitted++
+		out.emit(vCheckBytes(mt, b, mut, nil))
+	}
+}
+
+func vBEval(v []byte) uint64 {
+	var x uint64
+	for _, c := range v {
+		x = x<<8 | uint64(c)
+	}
+	return x
+}
+
+func vBE(x uint64, n int) []byte {
+	v := make([]byte, n)
+	for i := n - 1; i >= 0; i-- {
+		v[i] = byte(x)
+		x >>= 8
+	}
+	return v
+}
+
+// replacement values for a record value v
+func vRecValues(v []byte) [][]byte {
+	n := len(v)
+	var out [][]byte
+	out = append(out, nil, []byte{0}, []byte{1})
+	switch {
+	case n == 1:
+		for x := 0; x < 256; x++ {
+			out = append(out, []byte{byte(x)})
+		}
+	case n >= 2 && n <= 8:
+		var cur uint64
+		for _, c := range v {
+			cur = cur<<8 | uint64(c)
+		}
+		ints := append([]uint64{cur + 1, cur - 1, cur ^ 1}, vSweepInts...)
+		for _, x := range ints {
+			if n == 8 || x>>(8*uint(n)) == 0 {
+				out = append(out, vBE(x, n))
+			}
+		}
+		out = append(out, bytes.Repeat([]byte{0xff}, n))
+	default:
+		for _, p := range []int{0, 1, n - 2, n - 1} {
+			if p < 0 || p >= n {
+				continue
+			}
+			for k := uint(0); k < 8; k++ {
+				w := append([]byte{}, v...)
+				w[p] ^= 1 << k
+				out = append(out, w)
+			}
+		}
+		out = append(out, make([]byte, n), bytes.Repeat([]byte{0xff}, n))
+	}
+	// a value that is itself one canonical BigSize integer (MilliSatoshi, tlv.BigSizeT
+	// records): the integer set again, in BigSize form (the record length changes)
+	if bytes.Equal(v, vBigSize(vBEval(v[min(1, n):]))) || (n == 1 && v[0] < 0xfd) {
+		for _, x := range vSweepInts {
+			out = append(out, vBigSize(x))
+		}
+	}
+	return out
+}
+
+func vRecSweep(out *vWriter, mt MessageType, bases [][]byte, st *vSweepStat) {
+	seen := map[[2]uint64]int{}
+	per := 1 // how many bases each (record type, length) is swept on
+	if vTier() == "thorough" {
+		per = 4
+	}
+	for _, base := range bases {
+		k := vTlvStart(base)
+		if k < 0 {
+			continue
+		}
+		recs := vTlvRecords(base, k)
+		for _, rc := range recs {
+			key := [2]uint64{rc.t, uint64(rc.n)}
+			if seen[key] >= per {
+				continue
+			}
+			seen[key]++
+			val := base[rc.off+rc.hdr : rc.off+rc.hdr+rc.n]
+			head := append([]byte{}, base[:rc.off]...)
+			tail := base[rc.off+rc.hdr+rc.n:]
+			// the record removed (the decoder fills a default, if the record has one)
+			vSweepCase(out, mt, append(append([]byte{}, head...), tail...), "rec-sweep", st)
+			for _, nv := range vRecValues(val) {
+				b := append([]byte{}, head...)
+				b = append(b, vBigSize(rc.t)...)
+				b = append(b, vBigSize(uint64(len(nv)))...)
+				b = append(b, nv...)
+				b = append(b, tail...)
+				vSweepCase(out, mt, b, "rec-sweep", st)
+			}
+		}
+	}
+}
+
+func vFixSweep(out *vWriter, mt MessageType, bases [][]byte, st *vSweepStat) {
+	thorough := vTier() == "thorough"
+	for bi, base := range bases {
+		if bi >= 1 && !thorough || bi >= 4 {
+			break
+		}
+		end := vTlvStart(base)
+		if end < 0 {
+			end = len(base)
+		}
+		if end > 402 {
+			end = 402
+		}
+		if end > 252 && !thorough {
+			end = 252
+		}
+		for p := 2; p < end; p++ {
+			o := base[p]
+			vals := []byte{0, 0xff, o + 1, o - 1, o ^ 1, o ^ 2, o ^ 4, o ^ 8, o ^ 16, o ^ 32, o ^ 64, o ^ 128}
+			if thorough && bi == 0 {
+				vals = vals[:0]
+				for x := 0; x < 256; x++ {
+					vals = append(vals, byte(x))
+				}
+			}
+			for _, v := range vals {
+				if v == o {
+					continue
+				}
+				b := append([]byte{}, base...)
+				b[p] = v
+				vSweepCase(out, mt, b, "fix-sweep", st)
+			}
+		}
+	}
+}
+
+// vUintFields: the settable unsigned-integer fields of a message value, with the flag
+// "is the Val of a tlv.RecordT" (each record is encoded on its own: the value must come back).
+func vUintFields(v reflect.Value, path string, inRec bool, depth int,
+	visit func(f reflect.Value, path string, recVal bool)) {
+
+	if depth > 6 {
+		return
+	}
+	switch v.Kind() {
+	case reflect.Ptr:
+		if !v.IsNil() {
+			vUintFields(v.Elem(), path, false, depth+1, visit)
+		}
+	case reflect.Struct:
+		isRec := strings.HasPrefix(v.Type().Name(), "RecordT[")
+		for i := 0; i < v.NumField(); i++ {
+			sf := v.Type().Field(i)
+			if !sf.IsExported() || !v.Field(i).CanSet() {
+				continue
+			}
+			vUintFields(v.Field(i), path+"."+sf.Name, isRec && sf.Name == "Val", depth+1, visit)
+		}
+	case reflect.Uint8, reflect.Uint16, reflect.Uint32, reflect.Uint64:
+		// (Custom.Type is the message type itself, not a field of the payload)
+		if v.CanSet() && v.Type() != reflect.TypeOf(MessageType(0)) {
+			visit(v, path, inRec)
+		}
+	}
+}
+
+func vValSweep(out *vWriter, mt MessageType, seed int, st *vSweepStat) {
+	m, _ := vGenValue(mt, seed)
+	if m == nil {
+		return
+	}
+	if _, err, pan := vWrite(m); err != nil || pan != "" {
+		return
+	}
+	vUintFields(reflect.ValueOf(m), "", false, 0, func(f reflect.Value, path string, recVal bool) {
+		orig := f.Uint()
+		bits := uint(f.Type().Bits())
+		var vals []uint64
+		if bits == 8 {
+			for x := uint64(0); x < 256; x++ {
+				vals = append(vals, x)
+			}
+		} else {
+			for _, x := range vSweepInts {
+				if bits == 64 || x>>bits == 0 {
+					vals = append(vals, x)
+				}
+			}
+		}
+		for _, x := range vals {
+			f.SetUint(x)
+			st.cases++
+			row := vRow{"k": "val", "t": int(mt), "mut": "val-sweep", "field": path, "value": x}
+			bad := func() bool {
+				d0 := vDump(m)
+				b, err, pan := vWrite(m)
+				if pan != "" {
+					row["panic"] = pan
+					return true
+				}
+				if err != nil {
+					return false // outside the wire domain of the field: refused by Encode
+				}
+				row["ok"], row["len"], row["b"] = true, len(b), whx(b)
+				m1, err, pan, _ := vRead(b)
+				if pan != "" {
+					row["panic"] = pan
+					return true
+				}
+				st.accepted++
+				row["dec_ok"] = err == nil
+				if err != nil {
+					row["dec_err"] = err.Error()
+					return true
+				}
+				d1 := vDump(m1)
+				// a record value stands on its own: it must come back as it was.  Other fields
+				// may be governed by flags elsewhere in the value: canonical fixpoint only.
+				row["equal"] = !recVal || d0 == d1 || vDump(m) == d1
+				if row["equal"] == false {
+					row["diff"] = vDiff(d0, d1)
+				}
+				b2, err, _ := vWrite(m1)
+				row["enc2_same"] = err == nil && bytes.Equal(b, b2)
+				return row["equal"] == false || row["enc2_same"] == false
+			}()
+			if bad {
+				st.bad++
+				st.badVal++
+				if st.badVal <= 40 {
+					st.emitted++
+					out.emit(row)
+				}
+			}
+		}
+		f.SetUint(orig)
+	})
+}
+
 func vTypes() []MessageType {
 	var ts []MessageType
 	for t := MessageType(0); t < MsgEnd; t++ {
@@ -1216,6 +1627,24 @@ func TestVerifWire(t *testing.T) {
 				b := append(append([]byte{}, base[:kk]...), vCraftExt(rr)...)
 				out.emit(vCheckBytes(mt, b, "tlv-craft", nil))
 			}
+		}
+		// systematic per-record / per-byte / per-field sweeps (see vRecSweep)
+		{
+			var st vSweepStat
+			vRecSweep(out, mt, bases, &st)
+			recCases := st.cases
+			vFixSweep(out, mt, bases, &st)
+			fixCases := st.cases - recCases
+			nv := 1
+			if vTier() == "thorough" || directed {
+				nv = 6
+			}
+			for k := 0; k < nv; k++ {
+				vValSweep(out, mt, int(r.fork(uint64(600000+k)).u64()>>33), &st)
+			}
+			out.emit(vRow{"k": "sweep", "t": int(mt), "cases": st.cases, "rec": recCases, "fix": fixCases,
+				"val": st.cases - recCases - fixCases, "accepted": st.accepted, "bad": st.bad,
+				"emitted": st.emitted})
 		}
 		if directed {
 			// exhaustive single-byte sweep over the head of every valid encoding: every
